@@ -1434,7 +1434,8 @@ func exchangeServiceInfoRound(ctx context.Context, transport Transport, mtu uint
 
 	// Receive all owner service info
 	for _, kv := range ownerServiceInfo.ServiceInfo {
-		if err := w.WriteChunk(kv); err != nil {
+		// Nothing reads from this pipe until the round is complete
+		if err := w.WriteChunkNoWait(kv); err != nil {
 			return 0, false, fmt.Errorf("error piping owner service info to device module: %w", err)
 		}
 	}
